@@ -66,7 +66,8 @@ def fastmatch (peaks : List Peak) (zero a b : V2) (tol minWeight : Rat) (minMatc
   | some (m1, idx1) =>
     if !Gen.fm_enough idx1.length minMatch then .invalid else
     match weightedOptimize peaks m1 idx1 with
-    | none => .degenerate
+    | none => if idx1.length = 0 then .invalid else .degenerate   -- (empty selection, reachable with min_match ≤ 0: the
+                                                                   -- fit of nothing is the zero lattice, which the second round rejects)
     | some (z1, a1, b1) =>
       match matchAll peaks filt z1 a1 b1 tol with
       | none => .invalid
